@@ -174,6 +174,10 @@ func c11Clone(reg codectypes.InterfaceRegistry, url string) (sdk.Msg, error) {
 func runC11(r *RunCtx) error {
 	r.Sum.Rule = "A: every /canine_chain.* sdk.Msg implementation of the running app's InterfaceRegistry, instantiated by reflection with distinct accounts in every string field (several account assignments and Creator spellings per type); one evaluation = one (type, assignment); non-trivial = distinct (type, assignment, spelling) whose GetSigners returned. B: per frame family (oracle feeds, rns primary pointers, storage files, wasm post-file, notification inboxes / block lists) histories on the assembled app in which every account, in both spellings, replays every owner-only message against every resource; one evaluation = one executed message; non-trivial = distinct (family, signer-is-owner, outcome, resource shape) with the resource present. Thorough: per message type signed transactions through DeliverTx with a wrong key."
 	r.Group("table", "From JK Require Import Corr.C11.", "c11_case", "c11_ok")
+	// the provider-record frames (Props/C11Provider.v over Model/Collateral.v) are part of this property
+	if err := c15Histories(r, 0, r.Scale(4, 40), false); err != nil {
+		return err
+	}
 	if r.Sum.CaseFiles == nil { // a run that stops before any case must still write [] (bin/check takes len())
 		r.Sum.CaseFiles = []string{}
 		r.Sum.Cases = []CaseMeta{}
